@@ -35,6 +35,40 @@ static std::mutex g_rec_mu;
 static std::vector<scan_rec> g_scans;
 static thread_local std::size_t g_cur_tid = 0;
 
+// the leaf chain of layer 0 of a storage, with the lower bound of every border's range (from the interior
+// separators): "lo:key,key|lo:key|..." in the numbering slice*16+length; "-" if the layer has layer links
+static bool chain_walk(base_node* n, unsigned __int128 lo, std::ostringstream& out, bool& first) {
+    auto num = [](key_slice_type ks, key_length_type kl) {
+        return (static_cast<unsigned __int128>(__builtin_bswap64(ks)) << 4) | static_cast<unsigned>(kl);
+    };
+    auto pr = [&out](unsigned __int128 v) {
+        std::uint64_t hi = static_cast<std::uint64_t>(v >> 64), lo64 = static_cast<std::uint64_t>(v);
+        if (hi != 0) out << hx(hi) << std::string(16 - hx(lo64).size(), '0') << hx(lo64);
+        else out << hx(lo64);
+    };
+    if (n->get_version_border()) {
+        auto* b = dynamic_cast<border_node*>(n);
+        permutation perm{b->get_permutation().get_body()};
+        if (!first) out << "|";
+        first = false;
+        pr(lo);
+        out << ":";
+        for (std::size_t r = 0; r < perm.get_cnk(); ++r) {
+            std::size_t i = perm.get_index_of_rank(r);
+            if (b->get_key_length_at(i) > 8) return false;
+            if (r != 0) out << ",";
+            pr(num(b->get_key_slice_at(i), b->get_key_length_at(i)));
+        }
+        return true;
+    }
+    auto* it = dynamic_cast<interior_node*>(n);
+    for (std::size_t i = 0; i <= it->get_n_keys(); ++i) {
+        unsigned __int128 l2 = i == 0 ? lo : num(it->get_key_slice_at(i - 1), it->get_key_length_at(i - 1));
+        if (!chain_walk(it->get_child_at(i), l2, out, first)) return false;
+    }
+    return true;
+}
+
 static std::string do_op(Token token, const top& o) {
     std::ostringstream out;
     const auto& a = o.args;
@@ -198,6 +232,18 @@ int main(int argc, char** argv) {
         }
     }
     leave(main_tok);
+    {
+        // initial leaf chain of every prepared storage (input of the chain-model tie)
+        std::vector<std::pair<std::string, tree_instance*>> sts;
+        list_storages(sts);
+        for (auto& e : sts) {
+            base_node* root = e.second->load_root_ptr();
+            std::ostringstream o;
+            bool first = true;
+            if (root != nullptr && chain_walk(root, 0, o, first)) std::cout << "CHAIN " << tohex(e.first) << " " << o.str() << "\n";
+            else std::cout << "CHAIN " << tohex(e.first) << " -\n";
+        }
+    }
 
     // ---- the controlled run
     if (S.mode == 1) {
